@@ -791,4 +791,237 @@ theorem tokens_renderTail (d : Dialect) (l : List Val) (rest : Str) (ha : AdmLis
     cases tokens d (41 :: rest) <;> simp
 end
 
+/-! ### skeleton text (keywords, identifiers, punctuation) and joins -/
+
+def pend (acc : Str) : List Tok := if acc.isEmpty then [] else [.word acc]
+
+/-- tokens of literal-free skeleton text, computed structurally (`acc` = word being read) -/
+def skelToks : Str → Str → List Tok
+  | [], acc => pend acc
+  | c :: cs, acc =>
+    if isWordChar c then skelToks cs (acc ++ [c])
+    else pend acc ++ (if isSpace c then [] else [.punct c]) ++ skelToks cs []
+
+def skelOk (p : Str) : Bool := p.all fun c => isSpace c || isWordChar c || plainPunct c
+
+def skelEndsClean : Str → Str → Bool
+  | [], acc => acc.isEmpty
+  | c :: cs, acc => if isWordChar c then skelEndsClean cs (acc ++ [c]) else skelEndsClean cs []
+
+theorem tokens_skel_acc (d : Dialect) (p acc X : Str) (hp : skelOk p = true)
+    (hacc : ∀ c ∈ acc, isWordChar c = true) (hend : skelEndsClean p acc = true ∨ okAfter X = true) :
+    tokens d (acc ++ (p ++ X)) = (tokens d X).map (skelToks p acc ++ ·) := by
+  induction p generalizing acc with
+  | nil =>
+    simp only [List.nil_append, skelToks, pend]
+    by_cases he : acc = []
+    · subst he; simp
+    · have hok : okAfter X = true := by
+        rcases hend with h | h
+        · simp [skelEndsClean] at h; exact absurd h he
+        · exact h
+      rw [tokens_word d acc X he hacc hok]
+      simp [he]
+  | cons c cs ih =>
+    simp only [skelOk, List.all_cons, Bool.and_eq_true] at hp
+    obtain ⟨hc, hcs⟩ := hp
+    by_cases hw : isWordChar c = true
+    · simp only [skelToks, hw, if_true]
+      simp only [skelEndsClean, hw, if_true] at hend
+      have := ih (acc ++ [c]) hcs (by intro x hx; simp at hx; rcases hx with hx | rfl; exact hacc x hx; exact hw) hend
+      simpa using this
+    · have hw' : isWordChar c = false := by simpa using hw
+      simp only [skelToks, hw', Bool.false_eq_true, if_false]
+      simp only [skelEndsClean, hw', Bool.false_eq_true, if_false] at hend
+      have hih := ih [] hcs (by simp) hend
+      simp only [List.nil_append] at hih
+      have hc39 : c ≠ 39 := by
+        rintro rfl; simp [isSpace, isWordChar, plainPunct] at hc
+      have hstep : tokens d (c :: (cs ++ X)) =
+          (tokens d X).map (((if isSpace c then [] else [Tok.punct c]) ++ skelToks cs []) ++ ·) := by
+        by_cases hs : isSpace c = true
+        · rw [tokens_space d c _ hs, hih]; simp [hs]
+        · have hs' : isSpace c = false := by simpa using hs
+          have hpp : plainPunct c = true := by simpa [hs', hw'] using hc
+          rw [tokens_punct d c _ hpp, hih]
+          cases tokens d X <;> simp [hs']
+      by_cases he : acc = []
+      · subst he
+        simp only [List.nil_append, List.cons_append, pend, List.isEmpty_nil, if_true]
+        exact hstep
+      · rw [List.cons_append, tokens_word d acc _ he hacc (okAfter_cons c _ hc39 hw'), hstep]
+        cases tokens d X <;> simp [pend, he]
+
+theorem tokens_skel (d : Dialect) (p X : Str) (hp : skelOk p = true)
+    (hend : skelEndsClean p [] = true ∨ okAfter X = true) :
+    tokens d (p ++ X) = (tokens d X).map (skelToks p [] ++ ·) := by
+  simpa using tokens_skel_acc d p [] X hp (by simp) hend
+
+/-- tokens of `sep.join(...)`: the items' tokens with the separator's tokens in between -/
+def sepToks (sepT : List Tok) (f : α → List Tok) : List α → List Tok
+  | [] => []
+  | a :: t => f a ++ (t.map fun x => sepT ++ f x).flatten
+
+theorem tokens_join (d : Dialect) (sep : Str) (sepT : List Tok) (rend : α → Str) (toks : α → List Tok)
+    (hsep : ∀ X, tokens d (sep ++ X) = (tokens d X).map (sepT ++ ·))
+    (hsepOk : ∀ X, okAfter (sep ++ X) = true)
+    (l : List α) (rest : Str)
+    (h : ∀ a ∈ l, ∀ X, okAfter X = true → tokens d (rend a ++ X) = (tokens d X).map (toks a ++ ·))
+    (hr : okAfter rest = true) :
+    tokens d (joinSep sep (l.map rend) ++ rest) = (tokens d rest).map (sepToks sepT toks l ++ ·) := by
+  have tail : ∀ t : List α, (∀ a ∈ t, ∀ X, okAfter X = true → tokens d (rend a ++ X) = (tokens d X).map (toks a ++ ·)) →
+      okAfter (((t.map rend).map (sep ++ ·)).flatten ++ rest) = true ∧
+      tokens d (((t.map rend).map (sep ++ ·)).flatten ++ rest) =
+        (tokens d rest).map ((t.map fun x => sepT ++ toks x).flatten ++ ·) := by
+    intro t
+    induction t with
+    | nil => intro _; simp [hr]
+    | cons b t ih =>
+      intro hb
+      obtain ⟨ok, eq⟩ := ih (fun a ha => hb a (by simp [ha]))
+      refine ⟨by simpa using hsepOk _, ?_⟩
+      simp only [List.map_cons, List.flatten_cons, List.append_assoc]
+      rw [hsep, hb b (by simp) _ ok, eq]
+      cases tokens d rest <;> simp
+  cases l with
+  | nil => simp [joinSep, sepToks]
+  | cons a t =>
+    obtain ⟨ok, eq⟩ := tail t (fun x hx => h x (by simp [hx]))
+    simp only [List.map_cons, joinSep, sepToks, List.append_assoc]
+    rw [h a (by simp) _ ok, eq]
+    cases tokens d rest <;> simp
+
+theorem comma_sep (d : Dialect) (X : Str) : tokens d ([44, 32] ++ X) = (tokens d X).map ([Tok.punct 44] ++ ·) := by
+  have h := tokens_skel d [44, 32] X (by decide) (Or.inl (by decide))
+  have e : skelToks [44, 32] [] = [Tok.punct 44] := by decide
+  rw [e] at h; exact h
+
+theorem tokens_ident (d : Dialect) (n : Str) (hn : identLike n = true) (X : Str) (hX : okAfter X = true) :
+    tokens d (n ++ X) = (tokens d X).map ([Tok.word n] ++ ·) := by
+  obtain ⟨h1, h2⟩ := identLike_spec n hn
+  simpa using tokens_word d n X h1 h2 hX
+
+/-! ### the statements -/
+
+def insertToks (table : Str) (names : List Str) (lits : List (List Tok)) : List Tok :=
+  [.word [73, 78, 83, 69, 82, 84], .word [73, 78, 84, 79], .word table, .punct 40] ++
+    sepToks [.punct 44] (fun n => [Tok.word n]) names ++
+    [.punct 41, .word [86, 65, 76, 85, 69, 83], .punct 40] ++
+    sepToks [.punct 44] id lits ++ [.punct 41]
+
+theorem sepToks_map (sepT : List Tok) (f : β → List Tok) (g : α → β) (l : List α) :
+    sepToks sepT f (l.map g) = sepToks sepT (f ∘ g) l := by
+  cases l with
+  | nil => rfl
+  | cons a t => simp [sepToks, Function.comp_def]
+
+theorem tokens_insertSQL (d : Dialect) (table : Str) (names : List Str) (vs : List Val)
+    (ht : identLike table = true) (hn : ∀ n ∈ names, identLike n = true) (hv : ∀ v ∈ vs, Adm d v = true) :
+    tokens d (insertSQL d table names vs) = some (insertToks table names (vs.map (valToks d))) := by
+  simp only [insertSQL, insertFmt, insertNameSep, insertValueSep, fmt, List.append_nil]
+  rw [tokens_skel d _ _ (by decide) (Or.inl (by decide)),
+    tokens_ident d table ht _ (by simp [okAfter, isWordChar]),
+    tokens_skel d _ _ (by decide) (Or.inl (by decide))]
+  have hnames := tokens_join d [44, 32] [Tok.punct 44] (fun n : Str => n) (fun n => [Tok.word n]) (comma_sep d)
+    (fun X => by simp [okAfter, isWordChar]) names
+  simp only [List.map_id'] at hnames
+  rw [hnames _ (fun n hn' X hX => tokens_ident d n (hn n hn') X hX) (by simp [okAfter, isWordChar]),
+    tokens_skel d _ _ (by decide) (Or.inl (by decide)),
+    tokens_join d [44, 32] [Tok.punct 44] (render d) (valToks d) (comma_sep d)
+      (fun X => by simp [okAfter, isWordChar]) vs [41] (fun v hv' X hX => tokens_render d v X (hv v hv') hX)
+      (by simp [okAfter, isWordChar])]
+  have : tokens d [41] = some [Tok.punct 41] := by
+    have := tokens_punct d 41 [] (by decide)
+    rw [this, tokens]; rfl
+  rw [this]
+  simp [insertToks, skelToks, pend, isWordChar, isSpace, sepToks_map, Function.comp_def]
+
+theorem tokens_nil (d : Dialect) : tokens d [] = some [] := by rw [tokens]
+
+theorem tokens_close (d : Dialect) : tokens d [41] = some [Tok.punct 41] := by
+  rw [tokens_punct d 41 [] (by decide), tokens_nil]; rfl
+
+def setToks (p : Str × List Tok) : List Tok := [Tok.word p.1, .punct 61, .punct 40] ++ p.2 ++ [.punct 41]
+
+def updateToks (table : Str) (sets : List (Str × List Tok)) (idName : Str) (idLit : List Tok) : List Tok :=
+  [.word [85, 80, 68, 65, 84, 69], .word table, .word [83, 69, 84]] ++
+    sepToks [.punct 44] setToks sets ++
+    [.word [87, 72, 69, 82, 69], .word idName, .punct 61, .punct 40] ++ idLit ++ [.punct 41]
+
+theorem tokens_setItem (d : Dialect) (p : Str × Val) (hn : identLike p.1 = true) (hv : Adm d p.2 = true) (X : Str) :
+    tokens d (fmt updateSetFmt [] [p.1, render d p.2] ++ X) =
+      (tokens d X).map (setToks (p.1, valToks d p.2) ++ ·) := by
+  simp only [updateSetFmt, fmt, List.append_nil, List.append_assoc]
+  rw [tokens_ident d p.1 hn _ (by simp [okAfter, isWordChar]),
+    tokens_skel d _ _ (by decide) (Or.inl (by decide)),
+    tokens_render d p.2 _ hv (by simp [okAfter, isWordChar]),
+    List.singleton_append, tokens_punct d 41 X (by decide)]
+  have e : skelToks [32, 61, 32, 40] [] = [Tok.punct 61, Tok.punct 40] := by decide
+  rw [e]
+  cases tokens d X <;> simp [setToks]
+
+theorem tokens_updateSQL (d : Dialect) (table : Str) (sets : List (Str × Val)) (idName : Str) (idv : Val)
+    (ht : identLike table = true) (hi : identLike idName = true)
+    (hs : ∀ p ∈ sets, identLike p.1 = true ∧ Adm d p.2 = true) (hidv : Adm d idv = true) :
+    tokens d (updateSQL d table sets idName idv) =
+      some (updateToks table (sets.map fun p => (p.1, valToks d p.2)) idName (valToks d idv)) := by
+  simp only [updateSQL, updateFmt, updateSetSep, fmt, List.append_nil]
+  rw [tokens_skel d _ _ (by decide) (Or.inl (by decide)),
+    tokens_ident d table ht _ (by simp [okAfter, isWordChar]),
+    tokens_skel d _ _ (by decide) (Or.inl (by decide)),
+    tokens_join d [44, 32] [Tok.punct 44] (fun p : Str × Val => fmt updateSetFmt [] [p.1, render d p.2])
+      (fun p => setToks (p.1, valToks d p.2)) (comma_sep d) (fun X => by simp [okAfter, isWordChar]) sets _
+      (fun p hp X _ => tokens_setItem d p (hs p hp).1 (hs p hp).2 X) (by simp [okAfter, isWordChar]),
+    tokens_skel d _ _ (by decide) (Or.inl (by decide)),
+    tokens_ident d idName hi _ (by simp [okAfter, isWordChar]),
+    tokens_skel d _ _ (by decide) (Or.inl (by decide)),
+    tokens_render d idv _ hidv (by simp [okAfter, isWordChar]), tokens_close]
+  have e1 : skelToks [85, 80, 68, 65, 84, 69, 32] [] = [Tok.word [85, 80, 68, 65, 84, 69]] := by decide
+  have e2 : skelToks [32, 83, 69, 84, 32] [] = [Tok.word [83, 69, 84]] := by decide
+  have e3 : skelToks [32, 87, 72, 69, 82, 69, 32] [] = [Tok.word [87, 72, 69, 82, 69]] := by decide
+  have e4 : skelToks [32, 61, 32, 40] [] = [Tok.punct 61, Tok.punct 40] := by decide
+  simp [e1, e2, e3, e4, updateToks, sepToks_map, Function.comp_def]
+
+def clauseItemToks (p : Str × Bool × List Tok) : List Tok :=
+  [Tok.word p.1, if p.2.1 then Tok.word clauseIsOp else Tok.punct 61] ++ p.2.2
+
+def clauseToks (items : List (Str × Bool × List Tok)) : List Tok :=
+  sepToks [.word [65, 78, 68]] clauseItemToks items
+
+theorem tokens_clauseItem (d : Dialect) (p : Str × Val) (hn : identLike p.1 = true) (hv : Adm d p.2 = true)
+    (X : Str) (hX : okAfter X = true) :
+    tokens d (fmt clauseFmt [] [p.1, if p.2.isNull then clauseIsOp else clauseEqOp, render d p.2] ++ X) =
+      (tokens d X).map (clauseItemToks (p.1, p.2.isNull, valToks d p.2) ++ ·) := by
+  simp only [clauseFmt, fmt, List.append_nil, List.append_assoc]
+  rw [tokens_ident d p.1 hn _ (by simp [okAfter, isWordChar]), List.singleton_append, tokens_space d 32 _ (by decide)]
+  cases hnull : p.2.isNull
+  · simp only [Bool.false_eq_true, if_false, clauseEqOp, List.singleton_append]
+    rw [tokens_punct d 61 _ (by decide), tokens_space d 32 _ (by decide), tokens_render d p.2 X hv hX]
+    cases tokens d X <;> simp [clauseItemToks]
+  · simp only [if_true]
+    rw [tokens_ident d clauseIsOp (by decide) _ (by simp [okAfter, isWordChar]), List.singleton_append,
+      tokens_space d 32 _ (by decide),
+      tokens_render d p.2 X hv hX]
+    cases tokens d X <;> simp [clauseItemToks]
+
+theorem and_sep (d : Dialect) (X : Str) :
+    tokens d (clauseSep ++ X) = (tokens d X).map ([Tok.word [65, 78, 68]] ++ ·) := by
+  have h := tokens_skel d clauseSep X (by decide) (Or.inl (by decide))
+  have e : skelToks clauseSep [] = [Tok.word [65, 78, 68]] := by decide
+  rw [e] at h; exact h
+
+theorem tokens_columnClause (d : Dialect) (data : List (Str × Val))
+    (hs : ∀ p ∈ data, identLike p.1 = true ∧ Adm d p.2 = true) :
+    tokens d (columnClause d data) =
+      some (clauseToks (data.map fun p => (p.1, p.2.isNull, valToks d p.2))) := by
+  have h := tokens_join d clauseSep [Tok.word [65, 78, 68]]
+    (fun p : Str × Val => fmt clauseFmt [] [p.1, if p.2.isNull then clauseIsOp else clauseEqOp, render d p.2])
+    (fun p => clauseItemToks (p.1, p.2.isNull, valToks d p.2)) (and_sep d)
+    (fun X => by simp [clauseSep, okAfter, isWordChar]) data []
+    (fun p hp X hX => tokens_clauseItem d p (hs p hp).1 (hs p hp).2 X hX) (by simp [okAfter])
+  simp only [List.append_nil] at h
+  simp only [columnClause]
+  rw [h, tokens_nil]
+  simp [clauseToks, sepToks_map, Function.comp_def]
+
 end SqlObjVerif.Lex
